@@ -167,6 +167,14 @@ pub fn run(ctx: &Ctx) {
             cases.push(Term::Scope(p1("OUT0"), vec![Term::Method(p1("MID0"), 0, false, vec![sized_object(k, n)])]));
         }
     }
+    // element counts up to the 255 a NumElements byte can hold (the builder is re-used after a
+    // refused element, see aml::build)
+    for n in (0usize..=17).chain([63, 64, 127, 128, 253, 254, 255]) {
+        let es: Vec<Term> = (0..n).map(|i| if i % 3 == 2 { Term::U16(0x1000 + i as u16) } else { Term::U8(i as u8) }).collect();
+        cases.push(Term::Package(es.clone()));
+        cases.push(Term::PackageB(es.clone()));
+        cases.push(Term::Name(p1("PKG0"), Box::new(Term::PackageB(es))));
+    }
     // 64 KiB: the embedded size integers go from word to dword
     for k in 0..SIZED_KINDS.len() {
         for n in 65_515u32..=65_545 {
